@@ -166,7 +166,7 @@ def symstring_task(shape, prefix, slots):
     prof = common.FuncProfile()
     x = core.Explorer(timeout_ms=120000, max_paths=60000)
     asm = asmshim.load_asm_shimmed()
-    asm.re = symstr.ReProxy()
+    symstr.install(asm)
     real = asmshim.load_asm_pristine()
     nsym = sum(1 for s in slots if s is S or s == A)
     ascii_only = [k for k, s in enumerate(x for x in slots if x is S or x == A) if s == A]
